@@ -43,16 +43,22 @@ def min_key_contract(ex, b):
     """assumed contract of builtin min(range(n), key=f): raises ValueError for n = 0, else returns idx in [0,n) with
     f(idx) <= f(j) for all j (first such index on ties)"""
     rng = b['args'][0]; key = b['kwargs'].get('key')
+    elems = None
+    if isinstance(rng, Seq) and key is not None:
+        # min(list, key=f): the element at the minimising index; the index-level key is f applied to the element at that index
+        elems = rng; key0 = key
+        key = Fn('builtin', name='key-of-element', py=lambda s_, i, elems=elems, key0=key0: s_.apply(key0, [s_.seq_get(elems, lift(i))], {}))
+        rng = _Range(0, elems.n)
     if not isinstance(rng, _Range) or rng.start != 0 or key is None: raise Unsupported("min(key=) over %r" % (rng,))
     n = rng.n
     if isinstance(n, int):
         if n == 0: raise Raised('ValueError')
-        if n == 1: return 0
+        if n == 1: return 0 if elems is None else ex.seq_get(elems, lift(0))
     elif not ex.decide(cmp('>', n, 0)): raise Raised('ValueError')
     idx = var('idx', 'I')
     ex.assume(band(cmp('>=', idx, 0), cmp('<', idx, n)), 'min(key=): result is an element of the range')
     ex.argmin = dict(idx=idx, key=key, n=n)
-    return idx
+    return idx if elems is None else ex.seq_get(elems, idx)
 
 
 def searchsorted_contract(ex, b):
